@@ -390,6 +390,31 @@ fn decorrelate_in_subquery(
 
     let subquery_col = &subquery_schema.fields()[0];
 
+    // `x NOT IN (S)` is an anti join only if no NULL is involved: a NULL in S
+    // makes the predicate UNKNOWN for every x that is not in S, and a NULL x
+    // makes it UNKNOWN unless S is empty - the anti join keeps those rows.
+    // Rewrite only when neither side can hold a NULL; otherwise the filter
+    // stays and is evaluated row by row with three-valued logic.
+    if negated {
+        let outer_schema = outer.schema();
+        let operand_nullable = match in_expr {
+            Expr::Column(col) => outer_schema
+                .fields()
+                .iter()
+                .find(|f| {
+                    f.name == col.name
+                        || f.name.ends_with(&format!(".{}", col.name))
+                        || f.qualified_name() == col.name
+                })
+                .map(|f| f.nullable)
+                .unwrap_or(true),
+            _ => true,
+        };
+        if operand_nullable || subquery_col.nullable {
+            return Ok(None);
+        }
+    }
+
     // Extract correlation predicates
     let (mut correlation_predicates, decorrelated_subquery) =
         extract_correlation_predicates(subquery, outer)?;
